@@ -3,7 +3,7 @@ import numpy as np
 
 import xobjects as xo
 from xv import bufmon
-from xv.typegen import kinds_in, shape_sig, is_static, plain, build, AVal, max_fit, walk
+from xv.typegen import kinds_in, shape_sig, is_static, plain, build, AVal, max_fit, walk, _uid
 from xv.model import compare, exc_kind, nodes, get_path, set_path, ar_sig
 from xv.decoder import slot, plan_size
 from xv.props.common import new_case, build_root, flush_contracts, ctxs
@@ -15,7 +15,7 @@ T_QUICK, T_THOROUGH = 70, 1500
 CLASSES = ["index-get", "index-set", "negative-index", "length", "shape", "int-length", "string-too-long",
            "bigger-items", "non-member", "wrong-context", "offset-no-buffer", "construct-shape", "struct-with-other-length",
            "struct-one-refused-field", "extra-dimensions", "mixed-bad-item", "sequence-for-scalar",
-           "construct-refused-while-writing", "hybrid-array-other-length"]
+           "construct-refused-while-writing", "hybrid-array-other-length", "negative-length"]
 FLOORS = {"attempts": 20000, "raised": 15000, "state_checks": 20000}
 FLOORS.update({"class:" + c: 300 for c in CLASSES})
 FLOORS["class:struct-with-other-length"] = 80
@@ -499,6 +499,21 @@ def _plan(cls_, rng, c, allnodes, env):
             # construction left there does not count
             fn.exempt = (blk, blk + need)
         return "root", f"T(value with a pair where a number is expected) at {where}", fn
+    if cls_ == "negative-length":
+        # an array (of statically sized items) created from a negative extent, as an object of its own in the buffer
+        # of the existing objects or as the value given for an array field of a new struct
+        it = rng.choice([xo.Float64, xo.Int8, xo.Int64, xo.UInt16])
+        A = rng.choice([it[:], it[:, 2], it[3, :]])
+        neg = rng.choice([-1, -1, -2, -7, np.int64(-1), np.int8(-3)])
+        if rng.random() < 0.5:
+            def fn(base):
+                A(neg, _buffer=env.buf)
+            return "root", f"{A.__name__}({neg!r}) in the buffer of the existing objects", fn
+        S = type(f"XvNeg{next(_uid)}", (xo.Struct,), {"k": xo.Int64, "a": A, "z": xo.Int64})
+
+        def fn(base):
+            S(k=1, a=neg, z=2, _buffer=env.buf)
+        return "field", f"S(k=1, a={neg!r}, z=2) with a: {A.__name__}", fn
     if cls_ == "construct-shape":
         cand = [n for n in [t] if n["k"] == "ar" and any(d is not None for d in n["dims"]) and 0 not in c.mv.shape]
         if not cand:
